@@ -19,9 +19,10 @@ def sh(cmd, cwd, timeout=1500):
 def entries():
     out = []
     for d in sorted(os.listdir(INC)):
-        prop = d.replace("r2_", "")
+        m = re.match(r"(r\d+)_(C\d+)$", d)
+        prop = m.group(2) if m else d
         for n in (1, 2):
-            sid = f"{prop}-{n}" if not d.startswith("r2_") else f"{prop}-r2-{n}"
+            sid = f"{prop}-{m.group(1)}-{n}" if m else f"{prop}-{n}"
             patch = f"{INC}/{d}/change{n}.diff"
             if os.path.exists(f"{V}/seeded/{sid}/patch.diff"):
                 patch = f"{V}/seeded/{sid}/patch.diff"  # rebased onto the current tree
@@ -36,7 +37,12 @@ def demo_target(e):
     tests = re.findall(r"^func (Test\w+)\(", src, re.M)
     if not pkg:
         pm = re.search(r"^package (\w+)", src, re.M).group(1)
-        raise SystemExit(f"{e['id']}: cannot find demo package in notes (package {pm})")
+        base = pm[:-5] if pm.endswith("_test") else pm
+        cands = [d for d, _, fs in os.walk("/repo/internal") if os.path.basename(d) == base]
+        if len(cands) == 1:
+            pkg = os.path.relpath(cands[0], "/repo")
+        else:
+            raise SystemExit(f"{e['id']}: cannot find demo package in notes (package {pm})")
     return pkg.rstrip("/"), tests
 
 def suite(wt):
